@@ -150,6 +150,32 @@ def b_history(ctx):
                 if bad or state != (tr0, nf0, ni0):
                     ctx.fail(f'C18:shared-fatigue-data:{an}', f'{an} on {name} through a FatigueData object that other analyzers have used: {bad} differ from the analysis of a fresh object; transition / zone sizes {state}, before {(tr0, nf0, ni0)}',
                              {'dataset': name, 'analyzer': an, 'order': order})
+        # the two entry points: an analyzer given the DataFrame (columns load, cycles, fracture - the fracture flags are the user's) and given its
+        # `.fatigue_data` accessor analyse the same tests; run-outs suspended at different cycle numbers keep the flag they were given
+        # (added after seed C18-g re-classified every test of a DataFrame input as "fracture iff cycles < the largest cycle number")
+        dff = woehler.determine_fractures(df, lim).copy()
+        ro_rows = [i for i in dff.index if not bool(dff.loc[i, 'fracture'])]
+        for j, i in enumerate(ro_rows):
+            dff.loc[i, 'cycles'] = lim / (1.0, 2.0, 5.0)[j % 3]
+        for an in analyzers:
+            res = {}
+            for ename, arg in (('DataFrame', lambda: dff.copy()), ('FatigueData', lambda: dff.copy().fatigue_data)):
+                with warnings.catch_warnings():
+                    warnings.simplefilter('ignore')
+                    try:
+                        res[ename] = cls[an](arg()).analyze()
+                    except Exception as e:   # noqa
+                        res[ename] = e
+            ctx.case(True, key=(name, an, 'entry-points'))
+            a_, b_ = res['DataFrame'], res['FatigueData']
+            if isinstance(a_, Exception) or isinstance(b_, Exception):
+                if type(a_) is not type(b_):
+                    ctx.fail(f'C18:entry-points:{an}:raises', f'{an} on {name} (run-outs suspended at different cycle numbers): DataFrame input gives {a_ if isinstance(a_, Exception) else "a result"}, FatigueData input gives {b_ if isinstance(b_, Exception) else "a result"}', {'dataset': name, 'analyzer': an})
+                continue
+            bad = [k for k in ('SD', 'k_1', 'ND', 'TN', 'TS') if not _close(float(a_[k]), float(b_[k]), 1e-9)]
+            if bad:
+                ctx.fail(f'C18:entry-points:{an}', f'{an} on {name} (run-outs suspended at different cycle numbers): {bad} differ between DataFrame input {dict(a_[["SD", "k_1", "ND", "TN", "TS"]])} and FatigueData input {dict(b_[["SD", "k_1", "ND", "TN", "TS"]])}',
+                         {'dataset': name, 'analyzer': an})
     ctx.sample({'history': ['analyze(synthetic-0)', 'analyze(series with one mixed level)', 'analyze(series without run-outs)', 'analyze(exact Basquin data)', 'analyze(synthetic-0) again']})
 
 
@@ -286,6 +312,15 @@ def b_exact(ctx):
             ctx.fail(f'C18:exact-basquin-slope:k={k},SD={SD},ND={ND},runouts={ro}', f'exact Basquin data k={k}: estimated k_1={wc["k_1"]}', {'k': k, 'SD': SD, 'ND': ND, 'runouts': ro})
         elif abs(wc['TN'] - 1) > 1e-6 or abs(wc['TS'] - 1) > 1e-6:
             ctx.fail(f'C18:exact-basquin-scatter:k={k},SD={SD},ND={ND},runouts={ro}', f'exact Basquin data k={k}, SD={SD}, ND={ND}, run-outs={ro}: estimated k_1={wc["k_1"]}, TN={wc["TN"]}, TS={wc["TS"]}', {'k': k, 'SD': SD, 'ND': ND, 'runouts': ro})
+        # the same through the DataFrame entry point with the user's own fracture flags, one run-out suspended early (at a fifth of the limit)
+        if ro:
+            dfu = pd.DataFrame(rows[:-3] + [(SD * 0.9, limit), (SD * 0.9, limit / 5), (SD * 0.8, limit)], columns=['load', 'cycles'])
+            dfu['fracture'] = [True] * (len(rows) - 3) + [False] * 3
+            wcu = woehler.Elementary(dfu).analyze()
+            ctx.case(True, key=(k, SD, ND, 'user-flags'))
+            # (the slope only: the scatter of exact data is the recorded finding C18 exact-basquin-scatter, keyed per line above)
+            if abs(wcu['k_1'] - k) > 1e-9 * k:
+                ctx.fail('C18:exact-basquin:user-fracture-flags', f'exact Basquin data k={k}, SD={SD}, ND={ND} given as a DataFrame with its own fracture column (one run-out suspended early): k_1={wcu["k_1"]}, TN={wcu["TN"]}, TS={wcu["TS"]}', {'k': k, 'SD': SD, 'ND': ND})
         # the estimated line passes through the data: N(SD_est) = ND_est on the line
         want_ND = ND * (wc['SD'] / SD) ** (-k) if wc['SD'] > 0 else None
         if want_ND is not None and abs(wc['ND'] - want_ND) > 1e-6 * want_ND:
